@@ -43,7 +43,7 @@ MANIFEST = dict(
          "C16_inv_frame_fx, C16_inv_frame_fx_total, C16_reachable_fx, C16_reachable_fx_info; C16_fx_env_ok: the only module requirement, "
          "a non-zero byte tempo minimum, holds for the code as generated; C16_fx_writer_sites: every assignment to a kernel-read "
          "effect-owned variable in src/*.c sits in a modelled function; C16_fx_unclamped_counterexample: tempo 0 without the clamp = the "
-         "repaired finding bpm:min_bpm_clamp; C16_far_tempo_range: FAR tempo effects give speed 4..37 and tempo >= XMP_MIN_BPM in every tempo state, negative tempos included; C16_loop_jump_lands_in_pattern: next_row ends inside the pattern for EVERY loop target, e.g. one carried over from a longer pattern). xmp_play_buffer calls (any loop limit, any size, continuing after -XMP_END) play zero or "
+         "repaired finding bpm:min_bpm_clamp; C16_far_tempo_range: FAR tempo effects give speed 4..37 and tempo >= XMP_MIN_BPM in every tempo state, negative tempos included; C16_loop_jump_lands_in_pattern: next_row ends inside the pattern for EVERY loop target, e.g. one carried over from a longer pattern; C16_inv_mode_switch, C16_reachable_modes: xmp_set_player(MODE / CFLAGS) while playing = replacement of every scan-derived table by ANY well-formed rescan of the same song + the sequence fix-up keeps the invariant, the sequence index is valid for the new table; XmpProps.C16Start C16_wf_of_loaded, C16_inv_start_loaded: the initial-speed clause of WF is discharged by C03's post-load clause 1 <= mod->spd <= 255 instead of being assumed). xmp_play_buffer calls (any loop limit, any size, continuing after -XMP_END) play zero or "
          "more frames and nothing else: every state they pass through satisfies the invariant and the loop counter never decreases across "
          "them (C16_play_buffer, C16_reachable_api, C16_loop_monotone_api). For modules that also satisfy the monitored order-list clause "
          "OrdWF the order-skipping loop of next_order terminates within len+1 iterations (C16_next_order_terminates), every xmp_play_frame "
@@ -58,7 +58,7 @@ MANIFEST = dict(
          "virtual.c call; Fx.processFx against sampled real libxmp_process_fx calls (--wrap hook: corpus modules, synthetic modules, injected "
          "and delayed events) and Fx.readRow + ST2.6 step against the first tick of a row of a real module for every effect number x "
          "parameter x lane under random set-up rows, partner effects and 10 (quick) / 24 (thorough) configurations of player mode, quirks, "
-         "flow mode, flags and time factor, incl. the two time factors where the tempo minimum leaves the byte range and modules with FAR extras; a third of the synthetic modules carry a pattern-loop start beyond the end of the next pattern; Fx.tempoSlideStep "
+         "flow mode, flags and time factor, incl. the two time factors where the tempo minimum leaves the byte range and modules with FAR extras; a third of the synthetic modules carry a pattern-loop start beyond the end of the next pattern; 40% of the cases switch player mode / vblank timing between the frames (mostly from inside the last sequence of multi-sequence marker modules; module tables re-dumped, Seq.rescanFix tied, sequence clause evaluated at once); header speeds 255/256/0x120/0xffff/0 reach libxmp_load_epilogue through synthetic modules and generated XM files; the effect sweep also plays notes with 1/2/4 voices (a note that gets no voice must still run its effects); Fx.tempoSlideStep "
          "against the following tick; constants, the min_bpm clamp and the writer-site list regenerated from the sources; plus a direct "
          "oracle on xmp_frame_info that yields replayable failing inputs.",
     note="Still abstract / monitored: (1) NO effect number remains abstract: all of 0x00..0xff are modelled, incl. FX_FAR_TEMPO 0x68 / "
@@ -92,6 +92,7 @@ REQUIRED = [
     "Xmp.Seq.C16_next_order_terminates", "Xmp.Seq.C16_frame_returns", "Xmp.Seq.C16_inv_frame_total",
     "Xmp.Seq.C16_reachable_total", "Xmp.Seq.C16_reachable_info_total",
     "Xmp.Seq.C16_loop_jump_lands_in_pattern", "Xmp.Fx.C16_far_tempo_range",
+    "Xmp.Seq.C16_inv_mode_switch", "Xmp.Seq.C16_reachable_modes", "Xmp.Seq.C16_wf_of_loaded", "Xmp.Seq.C16_inv_start_loaded",
     "Xmp.Seq.C16_play_buffer", "Xmp.Seq.C16_reachable_api", "Xmp.Seq.C16_loop_monotone_api",
     "Xmp.Fx.C16_fx_env_ok", "Xmp.Fx.C16_fx_writer_sites", "Xmp.Fx.C16_fx_range", "Xmp.Fx.C16_fx_range_call", "Xmp.Fx.C16_fx_range_row",
     "Xmp.Fx.C16_frame_fx_refines", "Xmp.Fx.C16_inv_frame_fx", "Xmp.Fx.C16_inv_frame_fx_total", "Xmp.Fx.C16_reachable_fx",
@@ -112,6 +113,29 @@ NAMES = {"tslide": "Fx.tempoSlideStep vs the IT tempo slide tick of play_channel
          "start": "Seq.start vs xmp_start_player", "von": "Virt.virtOn vs libxmp_virt_on", "st26": "Seq.st26Step vs ST2.6 speed step",
          "tick": "Tick.getTicksize/prepare/bufferSize vs mixer.c", "tfac": "Tick.setTempoFactor vs xmp_set_tempo_factor (acceptance)", "vop": "Virt.step vs virtual.c",
          "vopf": "Virt.step vs virtual.c (field-only operations: setnna, setsmp, queuepatch, pastnote OFF/FADE; all voice fields)"}
+
+
+def header_speed_files(ck):
+    """XM files (structure-aware generator of tools/synthmods.py) whose 16-bit header speed is 255 / 256 / 0x120 / 0xffff / 0:
+    xm_load.c takes the field as it is, libxmp_load_epilogue has to bring it back into 1..255."""
+    import random
+    import shutil
+    import struct
+    import synthmods
+    d = os.path.join(vlib.OUT, "c16", "gen-%d" % ck.seed)
+    shutil.rmtree(d, ignore_errors=True)
+    os.makedirs(d, exist_ok=True)
+    rng = random.Random(ck.seed * 65537 + 16)
+    out = []
+    for i, spd in enumerate([255, 256, 0x120, 0xffff, 0, 0x100, 31, 0x8000]):
+        data = bytearray(synthmods.gen_xm(rng)[0])
+        struct.pack_into("<H", data, 76, spd)          # xfh.tempo (default speed), offset 60 + 16
+        if i % 2 == 0:
+            data[38:58] = b"MED2XM by J.Pynnone "       # tracker id of the converter that writes 16-bit speeds
+        fn = os.path.join(d, "spd%04x-%d.xm" % (spd, i))
+        open(fn, "wb").write(bytes(data))
+        out.append(fn)
+    return out
 
 
 def pick_corpus(ck, n):
@@ -158,6 +182,8 @@ def replay_of(exe, case, nframes, vd):
     f = case["begin"].split()
     if len(f) >= 3 and f[0] == "case":
         return {"cmd": ["c16_frames", "case", f[1], str(nframes), str(vd), f[2]], "case": case["begin"]}
+    if f and f[0] == "modeprobe":
+        return {"cmd": ["c16_frames", "modeprobe"], "case": case["begin"]}
     if len(f) >= 3 and f[0] == "fxall" and f[2].startswith("cfg="):
         return {"cmd": ["c16_frames", "fxall", f[1], f[2][4:], "1", "0"], "case": case["begin"]}
     return {"case": case["begin"]}
@@ -247,21 +273,21 @@ def run(ck):
     ck.note("generated_consts_changed", changed)
     ck.note("consts", {k: consts[k] for k in ("maxFramesize", "maxSrate", "minBpm", "anticlickShift", "smixNumvoc", "s3mBpmClamp",
                                               "flowWriterSites")})
-    ck.proofs(["XmpProps.C16"], required=REQUIRED, drivers=["drv_c16"])
+    ck.proofs(["XmpProps.C16", "XmpProps.C16Start"], required=REQUIRED, drivers=["drv_c16"])
     exe = vlib.build_harness("c16_frames", ["c16_frames.c"], extra=HARNESS_EXTRA)
     quick = ck.tier == "quick"
     seed = ck.seed
     if quick:
         nframes, vd = 300, 6
         synth_shards, synth_per = 11, 28          # 308 synthetic modules
-        corpus = pick_corpus(ck, 57)              # + the three repo test modules
+        corpus = pick_corpus(ck, 57) + header_speed_files(ck)   # + the three repo test modules + XM files with 16-bit header speeds
         corpus_shards = 4
         tick_n = 6000
         fx_shards, fx_cfgs, fx_thorough = 2, 5, 0     # 10 configurations (every player mode twice) x ~16 k experiments
     else:
         nframes, vd = 500, 6
         synth_shards, synth_per = 12, 420         # 5040 synthetic modules
-        corpus = pick_corpus(ck, None)
+        corpus = pick_corpus(ck, None) + header_speed_files(ck)
         corpus_shards = 12
         tick_n = 200000
         fx_shards, fx_cfgs, fx_thorough = 12, 2, 1    # 24 configurations x 2 lanes x 256 effects x 256 parameters
@@ -278,6 +304,8 @@ def run(ck):
         shards.append((exe, ["fxall", str(seed), str(i * fx_cfgs), str(fx_cfgs), str(fx_thorough)]))
     # time factors at which the tempo minimum of label fx_s3m_bpm leaves the byte range (flow effects only)
     shards.append((exe, ["fxall", str(seed), "1000", "2", "0"]))
+    # player-mode switch that turns virtual channels on for a module started without background channels
+    shards.append((exe, ["modeprobe"]))
     # modules with FAR extras: FX_FAR_TEMPO / FX_FAR_F_TEMPO sweep over the accumulated coarse / fine tempo state
     if quick:
         shards.append((exe, ["fxall", str(seed), str(2000 + seed % 16), "2", "0"]))
@@ -336,6 +364,9 @@ def run(ck):
                 if not c["O"]:
                     ck.unproved("monitored assumption " + a.split(" ", 1)[0],
                                 "case [%s]: %s ; replay %s" % (c["begin"], a[:400], rp))
+            if c["begin"].startswith("modeprobe"):
+                ck.count(vlib.hash_str(c["begin"]), nontrivial=True)
+                continue
             if c["begin"].startswith("fxall"):
                 stats["fxrow_experiments"] += cc.get("fxrows", 0)
                 stats["fxrow_state_changed"] += cc.get("fxchanged", 0)
@@ -376,6 +407,10 @@ def run(ck):
         "CLAMP(min_bpm, 1, 255) extracted from src/effects.c on every run); the two time factors where it failed before /repo 694de7b are "
         "played in every run (fxall configurations 1000/1001)",
         "xmp_play_buffer touches the player state only through xmp_play_frame — monitored after every buffer call (harness 'A pbufstate')",
+        "spdOK / StartSpeedAgrees: 1 <= mod->spd <= 255 after load (C03's clause, evaluated on the live module at every start: harness 'A spd') "
+        "and the scan recorded it for the first playable order ('A startspeed') — hypotheses of C16_inv_start_loaded",
+        "SameSong: a mode / timing switch leaves orders and patterns alone — the re-dumped module is what the kernel correspondence of the "
+        "following frames runs against",
         "WF: module data read by the kernel (orders, rows >= 1, sequence table, entry points, xxo_info speed/bpm) — evaluated by the Lean "
         "driver (Seq.wfB) on every module played",
         "OrdWF: every kept sequence reaches an order holding a pattern (restart position of the sequence, entry point, or forward walk "
